@@ -46,6 +46,25 @@ class C20(Prop):
             ops += body1 + [{"op": "counters"}, {"op": "newprocess"}, ops[0], G.op_setenv(env2[0], env2[1])]
             ops += G.interleave(r, [G.run_program(r, prog2, 1), [dict(e) for e in extra]]) + [{"op": "counters"}]
             cases.append({"ci": False, "updvar": r.choice(["unset", "true"]), "colour": False, "ops": ops, "meta": {}})
+        # file-system failures (outside the model: "FS calls succeed"): the snapshot directory cannot be created
+        for i in range(n // 10):
+            r = rng.fork()
+            t = r.choice(G.TEST_NAMES)
+            ops = [G.op_putfile(b"blocker", b"i am a regular file"), G.op_newconfig(dir=b"blocker/sub"), G.op_newconfig(dir=b"ok")]
+            calls = []
+            for _ in range(r.range(2, 5)):
+                h = r.choice([1, 1, 2])
+                api = r.choice(["snap", "json", "yaml", "stand", "standjson"])
+                if api == "snap":
+                    calls.append(G.op_match_snap(h, t, [G.gen_text(r)]))
+                elif api == "stand":
+                    calls.append(G.op_match_doc("stand", h, t, G.gen_text(r)))
+                elif api == "yaml":
+                    calls.append(G.op_match_doc("yaml", h, t, r.choice(G.YAML_DOCS)))
+                else:
+                    calls.append(G.op_match_doc(api, h, t, r.choice(G.JSON_DOCS)))
+            ops += calls + [{"op": "counters"}]
+            cases.append({"ci": False, "updvar": "unset", "colour": False, "ops": ops, "meta": {"oracle_only": True}})
         return cases
 
     def oracle(self, case, ops, results):
